@@ -653,6 +653,44 @@ def _nondet_in(ctx: Ctx, fns: list[FuncInfo]):
                     if isinstance(c, (ast.Set, ast.SetComp)) or (isinstance(c, ast.Call) and dotted(c.func) in ('set', 'frozenset')):
                         out.append((f, it, 'iteration over a set (hash-seed dependent order)'))
                         break
+        # a set turned into a sequence without sorting: list(s), tuple(s), enumerate(s), dict.fromkeys(s), s.pop()
+        def _set_typed(e: ast.AST) -> bool:
+            if isinstance(e, (ast.Set, ast.SetComp)) or (isinstance(e, ast.Call) and dotted(e.func) in ('set', 'frozenset')):
+                return True
+            if isinstance(e, ast.Name):
+                for a in walk_local(f.node):
+                    v = None
+                    if isinstance(a, ast.Assign) and any(isinstance(t, ast.Name) and t.id == e.id for t in a.targets):
+                        v = a.value
+                    elif isinstance(a, ast.AnnAssign) and a.value is not None and isinstance(a.target, ast.Name) and a.target.id == e.id:
+                        v = a.value
+                    if v is not None and (isinstance(v, (ast.Set, ast.SetComp)) or (isinstance(v, ast.Call) and dotted(v.func) in ('set', 'frozenset'))):
+                        return True
+            return False
+        for n in walk_local(f.node):
+            if isinstance(n, ast.Call) and dotted(n.func) in ('list', 'tuple', 'enumerate', 'iter', 'next', 'dict.fromkeys', 'zip', 'map') and n.args \
+                    and any(_set_typed(a) for a in n.args):
+                out.append((f, n, 'a set converted to a sequence without sorting (hash-seed dependent order)'))
+        # inside a branch that has established `isinstance(x, (set, frozenset))`, iterating x
+        for iff in [n for n in walk_local(f.node) if isinstance(n, ast.If)]:
+            t = iff.test
+            if isinstance(t, ast.Call) and dotted(t.func) == 'isinstance' and len(t.args) == 2 and isinstance(t.args[0], ast.Name):
+                tn = t.args[1]
+                names = [dotted(e) for e in (tn.elts if isinstance(tn, ast.Tuple) else [tn])]
+                if any(x in ('set', 'frozenset', 'Set', 'AbstractSet', 'FrozenSet') for x in names if x):
+                    var = t.args[0].id
+                    for st in iff.body:
+                        for n in ast.walk(st):
+                            its = []
+                            if isinstance(n, ast.For):
+                                its.append(n.iter)
+                            if isinstance(n, (ast.ListComp, ast.DictComp, ast.GeneratorExp)):
+                                its.extend(g.iter for g in n.generators)
+                            if isinstance(n, ast.Call) and dotted(n.func) in ('list', 'tuple', 'enumerate') and n.args:
+                                its.append(n.args[0])
+                            for it in its:
+                                if isinstance(it, ast.Name) and it.id == var:
+                                    out.append((f, it, f'iteration over the set `{var}` (hash-seed dependent order)'))
         md = memo_decorators(f)
         if md:
             out.append((f, f.node, f'memoised by {md} (equality of 1, 1.0 and True; process-history dependent)'))
@@ -1060,3 +1098,36 @@ def roundtrips(ctx: Ctx):
             okl = okl and isinstance(val, ast.Call) and isinstance(val.func, ast.Attribute) and val.func.attr == 'deserialize_value'
     yield ctx.ob('C09.ROUNDTRIPS', okc and okl, dt, ctor[0] if ctor else dt.node, 'every other key -> deserialize_value -> task_cls(**params); result_meta set',
                  '' if okc and okl else 'deserialize_task does not rebuild the task from all stored parameters and the given result_meta', construct='task-rebuild')
+
+
+@rule('C15.VISITED-PATH-LOCAL', ['C15', 'C02', 'C20'])
+def visited_path_local(ctx: Ctx):
+    """A recursive walk over a parameter value that guards against cycles keeps its `visited` collection path-local (the set
+    of *ancestors*): each level passes a new set (`seen | {id(x)}`) down, or removes what it added when it returns.  A set
+    that only ever grows means "seen anywhere before", and a value that legitimately occurs twice (the same tuple object
+    under two keys, the empty tuple `()`) is rejected as a cycle."""
+    n = 0
+    for fn in ctx.P.all_functions():
+        if not fn.module.name.endswith(('.tasks', '.serialization', '.diagram')):
+            continue
+        rec = [c for c in calls_in(fn.node) if fn.qualname in ctx.P.resolve_call(c, fn, by_name=False)]
+        if not rec:
+            continue
+        params = [a.arg for a in fn.params]
+        for p in params:
+            adds = [c for c in calls_in(fn.node) if isinstance(c.func, ast.Attribute) and c.func.attr in ('add', 'update', 'append')
+                    and isinstance(c.func.value, ast.Name) and c.func.value.id == p]
+            if not adds:
+                continue
+            # is the same object handed to the recursive call?
+            passed_down = any(any(isinstance(a, ast.Name) and a.id == p for a in list(c.args) + [k.value for k in c.keywords]) for c in rec)
+            if not passed_down:
+                continue
+            n += 1
+            rems = [c for c in calls_in(fn.node) if isinstance(c.func, ast.Attribute) and c.func.attr in ('discard', 'remove', 'pop', 'difference_update')
+                    and isinstance(c.func.value, ast.Name) and c.func.value.id == p]
+            ok = bool(rems)
+            yield ctx.ob('C15.VISITED-PATH-LOCAL', ok, fn, adds[0], f'`{p}` of {fn.short} holds ancestors only',
+                         '' if ok else f'`{src(adds[0])[:50]}` adds to the visited collection that is passed down the recursion and never takes it out again: '
+                         'a supported value that contains the same (sub-)object twice is reported as circular')
+    yield ctx.ob('C15.VISITED-PATH-LOCAL', True, None, None, f'{n} shared visited collections in recursive walkers', construct='scan', path='labtech/tasks.py')
